@@ -72,7 +72,9 @@ THEOREMS["C03"] = [("Flurry.Props.C10", ["Flurry.C10.fill_then_forward_then_reti
 THEOREMS["C04"] = [("Flurry.Props.C04", _thms("C04", "freed_at_most_once freed_only_after_guards freed_was_retired retired_is_eventually_freed refused_insert_changes_nothing"))]
 THEOREMS["C07"] = [("Flurry.Props.C07", _thms("C07", "traverse_frozen yields_each_once terminates quiescent_order"))]
 THEOREMS["C11"] = [("Flurry.Props.C11", _thms("C11", "no_lost_wakeup writer_not_blocked_without_readers never_stuck writer_eventually_enabled parked_writer_woken writer_excludes_tree_readers accepted_stream_theorems")), ("Flurry.Proto.RwLockMonitor", ["Flurry.Proto.RwLockMonitor.accepted_is_reachable"])]
-THEOREMS["C12"] = [("Flurry.Props.C12", _thms("C12", "roots_in_closure roots_named reach_closed reader_lock_free roots_present reader_never_blocked tree_readers_exclude_writer"))]
+THEOREMS["C12"] = [("Flurry.Props.C12", _thms("C12", "roots_in_closure roots_named reach_closed reader_lock_free roots_present reader_never_blocked tree_readers_exclude_writer")),
+                   ("Flurry.Props.C12Bins", ["Flurry.Proto.BinT.reader_step_enabled", "Flurry.Proto.BinT.reader_step_frame", "Flurry.Proto.BinT.reader_solo_terminates",
+                                             "Flurry.Proto.BinX.reader_step_enabled", "Flurry.Proto.BinX.reader_step_frame", "Flurry.Proto.BinX.reader_solo_terminates"])]
 
 TIERS = {
     "quick": {"seq_cases": 400, "seq_ops": 60, "search_mult": 6, "conc_cases": 1500},
@@ -965,7 +967,7 @@ def check_C11(R):
 
 def check_C12(R):
     R.trusted = TRUSTED_COMMON + ["call resolution by method name and arity in extract/src/atomics.rs (an over-approximation of the call graph)"]
-    R.assumptions = ["PARTIAL: boundedness of a read's own steps from an arbitrary reachable state is measured on the implementation (reads run alone with writers suspended at every yield point), not proved"]
+    R.assumptions = ["PARTIAL: a read's steps are always enabled, change nothing but its own locals / the reader count, and a read run alone finishes within 2*|heap|+5 (tree bin) / |heap|+4 (list bin under resize) own steps from EVERY reachable state of the one-bin models Proto/BinT and Proto/BinX (Props/C12Bins.lean); for the whole map (iteration, len, nested forwarding chains, many bins) boundedness is measured on the implementation (reads run alone with writers suspended at every yield point)"]
     translator_step(R)
     lean_step(R, "C12")
     if harness_step(R):
